@@ -331,3 +331,48 @@ def _names_in(r):
     if isinstance(m, dict):
         out.append(m.get("v", ""))
     return [x for x in out if isinstance(x, str)]
+
+
+# ---------------------------------------------------------------------- drift amplification
+def amplify_drift(ctx, binp, rows, drifts, base_inp, info, byz, maxround, label, nprefix=8, tails=40, taillen=80):
+    """Conformance drift (the real step differs from the spec's step) is not a verdict, but it marks the
+    place where the code deviates.  Re-execute the schedules that led to the first drifts and continue each
+    of them with many seeded random adversarial tails, so that a deviation which needs further steps to
+    become a property violation gets the chance to show it.  Costs nothing on a tree without drift.
+    Returns (rows, validation result) or (None, None)."""
+    if not drifts:
+        return None, None
+    runs = {}
+    for r in rows:
+        runs.setdefault(r.get("run"), []).append(r)
+    seen, scheds = set(), []
+    for d in drifts:
+        row = d["row"]
+        run = runs.get(row.get("run"))
+        if not run:
+            continue
+        key = json.dumps({k: row.get(k) for k in ("ev", "n", "m", "k", "post")}, sort_keys=True)
+        idx = None
+        for i, e in enumerate(run):
+            if e.get("ev") == row.get("ev") and json.dumps({k: e.get(k) for k in ("ev", "n", "m", "k", "post")}, sort_keys=True) == key:
+                idx = i
+                break
+        if idx is None:
+            continue
+        steps = [{"name": e["ev"], "n": e["n"], "m": e.get("m"), "k": e.get("k", "-")} for e in run[1:idx + 1]
+                 if e.get("ev") in ("Deliver", "ProcessInternal", "Timeout")]
+        sk = json.dumps(steps, sort_keys=True)
+        if sk in seen or not steps:
+            continue
+        seen.add(sk)
+        for t in range(tails):
+            scheds.append({"id": 900000 + len(scheds), "steps": steps})
+        if len(seen) >= nprefix:
+            break
+    if not scheds:
+        return None, None
+    inp = dict(base_inp, scheds=scheds, random=0, randtail=taillen)
+    arows, astats = run_driver(ctx, binp, inp, "amp-" + label)
+    v = validate(ctx, arows, info, byz, maxround, "amp" + label, dedupe=True)
+    log("drift amplification %s: %d prefixes x %d tails -> %d property failures" % (label, len(seen), tails, len(v["viol"])))
+    return arows, v
